@@ -21,7 +21,7 @@
 use crate::c19_model::*;
 use crate::c19_route::{describe, situation};
 use crate::c20_roller::{read_dir_state, Naming};
-use crate::driver::{ChildResult, Ev, Job, StreamJob};
+use crate::driver::{ChildResult, Ev, How, Job, StreamJob};
 use crate::gen::*;
 use proptest::prelude::*;
 use serde::{Deserialize, Serialize};
@@ -73,6 +73,13 @@ pub struct E2eCase {
   /// shut down after this permille of all events has been emitted (None: after the emitters finished)
   pub shutdown_permille: Option<u16>,
   pub via_drop: bool,
+  /// who ends the session and whether by unwinding (replay files written before this field
+  /// existed decode as the ordinary teardown on the initialising thread)
+  #[serde(default)]
+  pub how: How,
+  /// the child exits as soon as the teardown returned (only after-join teardowns)
+  #[serde(default)]
+  pub exit_after: bool,
 }
 
 fn app_spec() -> impl Strategy<Value = AppSpec> {
@@ -93,9 +100,12 @@ pub fn strategy(max_events_per_thread: usize) -> impl Strategy<Value = E2eCase> 
       loggers_strategy(n_app as u8),
       prop::collection::vec(prop::collection::vec(ev, 0..max_events_per_thread), 1..=4),
       prop::option::weighted(0.45, 0u16..1000),
+      prop::bool::weighted(0.45),
+      // "shutdown at any moment": the ways a session ends — the ordinary one first (shrink target)
+      prop_oneof![5 => Just(How::Plain), 2 => Just(How::OtherThread), 3 => Just(How::Unwind), 2 => Just(How::UnwindThread)],
       prop::bool::weighted(0.3),
     )
-      .prop_map(|(mut appenders, loggers, threads, shutdown_permille, via_drop)| {
+      .prop_map(|(mut appenders, loggers, threads, shutdown_permille, via_drop, how, exit_after)| {
         // at most one console appender (there is one stdout)
         let mut seen_console = false;
         for a in appenders.iter_mut() {
@@ -106,9 +116,26 @@ pub fn strategy(max_events_per_thread: usize) -> impl Strategy<Value = E2eCase> 
             seen_console = true;
           }
         }
-        E2eCase { appenders, loggers, threads, shutdown_permille, via_drop }
+        normalise(E2eCase { appenders, loggers, threads, shutdown_permille, via_drop, how, exit_after })
       })
   })
+}
+
+/// Combinations that mean nothing are mapped onto ones that do (also applied to decoded
+/// scenarios, so fuzz inputs and hand-written replays cannot leave the domain):
+/// a guard can only be *dropped* by unwinding; an immediate exit is only generated when every
+/// emitter has been joined (otherwise "emitted before the teardown began" is not known when the
+/// report has to be written) and when some appender leaves something to read after the exit.
+pub fn normalise(mut c: E2eCase) -> E2eCase {
+  if matches!(c.how, How::Unwind | How::UnwindThread) {
+    c.via_drop = true;
+  }
+  let total = total_events(&c);
+  let concurrent = matches!(c.shutdown_permille, Some(p) if ((total as u64 * p as u64) / 1000) < total as u64);
+  if concurrent || c.appenders.iter().all(|a| matches!(a.kind, AppKind::Custom { .. })) {
+    c.exit_after = false;
+  }
+  c
 }
 
 fn total_events(c: &E2eCase) -> usize {
@@ -321,7 +348,48 @@ pub fn execute(c: &E2eCase) -> Result<CaseReport, Failure> {
   r
 }
 
+/// The name of the teardown class as it appears in signatures and classes.  The four ordinary
+/// ones keep the names they always had.
+pub fn mode_of(c: &E2eCase) -> String {
+  let total = total_events(c);
+  let concurrent = matches!(c.shutdown_permille, Some(p) if ((total as u64 * p as u64) / 1000) < total as u64);
+  let base = if c.via_drop { "drop" } else { "shutdown" };
+  let who = match c.how {
+    How::Plain => "",
+    How::OtherThread => "_other_thread",
+    How::Unwind => "_unwind",
+    How::UnwindThread => "_unwind_thread",
+  };
+  format!("{base}{who}_{}{}", if concurrent { "concurrent" } else { "after_join" }, if c.exit_after { "+exit" } else { "" })
+}
+
 fn execute_in(c: &E2eCase, dir: &Path) -> Result<CaseReport, Failure> {
+  let c = &normalise(c.clone());
+  let r = run_case(c, dir);
+  let f = match r {
+    Err(f) if f.property == P && (c.how != How::Plain || c.exit_after) => f,
+    other => return other,
+  };
+  // A clause failed under one of the less ordinary ways of ending the session.  Control: the same
+  // case, same process set-up, ended the ordinary way (same choice of shutdown()/drop, on the
+  // initialising thread, the child living on afterwards).  If the control fails the same clause
+  // the teardown is not what matters and the control's failure is what gets reported; if it
+  // passes, the verdict rests on the difference between the two children of one configuration
+  // and not on how long this machine took.
+  let mut ctl = c.clone();
+  ctl.how = How::Plain;
+  ctl.exit_after = false;
+  let cdir = dir.join("control");
+  std::fs::create_dir_all(&cdir).map_err(|e| Failure::new("INFRA", "tempdir", e.to_string()))?;
+  let strip = |sig: &str, mode: &str| sig.replace(mode, "*");
+  match run_case(&ctl, &cdir) {
+    Err(cf) if cf.property == P && strip(&cf.signature, &mode_of(&ctl)) == strip(&f.signature, &mode_of(c)) => Err(Failure::new(P, cf.signature.clone(), format!("{} [first seen under teardown {}; the ordinary-teardown control of the same case fails the same clause]", cf.message, mode_of(c)))),
+    Err(cf) if cf.property == "INFRA" => Err(cf),
+    _ => Err(Failure::new(P, f.signature.clone(), format!("{} [control: the same case ended by an ordinary {} passes this clause]", f.message, mode_of(&ctl)))),
+  }
+}
+
+fn run_case(c: &E2eCase, dir: &Path) -> Result<CaseReport, Failure> {
   let n_app = c.appenders.len() as u8;
   let total = total_events(c);
   let yaml = config_yaml(c, dir);
@@ -336,18 +404,16 @@ fn execute_in(c: &E2eCase, dir: &Path) -> Result<CaseReport, Failure> {
     streams: c.appenders.iter().enumerate().filter_map(|(i, a)| if let AppKind::Custom { late, slow_us, .. } = a.kind { Some(StreamJob { name: appender_name(i as u8), late_drain: late, delay_us: slow_us as u32 }) } else { None }).collect(),
     shutdown_at,
     via_drop: c.via_drop,
+    how: c.how,
+    exit_after: c.exit_after,
   };
   let job_path = dir.join("job.json");
   std::fs::write(&job_path, serde_json::to_string(&job).unwrap()).map_err(|e| Failure::new("INFRA", "write", e.to_string()))?;
 
   let mut rep = CaseReport::new();
   let concurrent = matches!(shutdown_at, Some(at) if (at as usize) < total);
-  let mode = match (concurrent, c.via_drop) {
-    (false, false) => "shutdown_after_join",
-    (false, true) => "drop_after_join",
-    (true, false) => "shutdown_concurrent",
-    (true, true) => "drop_concurrent",
-  };
+  let mode = mode_of(c);
+  let mode = mode.as_str();
   let res = match run_child(&job_path, dir) {
     ChildOutcome::Done(r) => r,
     ChildOutcome::Infra(m) => return Err(Failure::new("INFRA", "e2e/cannot_run_child", m)),
@@ -374,6 +440,9 @@ fn execute_in(c: &E2eCase, dir: &Path) -> Result<CaseReport, Failure> {
   }
   if let Some(e) = &res.init_error {
     return Err(Failure::new("INFRA", "e2e/config_rejected", format!("{e}\n{yaml}")));
+  }
+  if c.exit_after != res.exited_right_after_teardown {
+    return Err(Failure::new("INFRA", "e2e/bad_child_result", "child did not follow the exit_after instruction"));
   }
   if !res.missing_streams.is_empty() {
     return Err(Failure::new(P, "e2e/custom/stream_not_exposed", format!("custom appenders without a stream in InitResult: {:?}", res.missing_streams)));
@@ -406,6 +475,12 @@ fn execute_in(c: &E2eCase, dir: &Path) -> Result<CaseReport, Failure> {
     let sig = |clause: &str| format!("e2e/{kt}/{pol}/{clause}/{mode}");
     // ---- what arrived ------------------------------------------------------------------------
     let delivered: Vec<Delivered> = match &a.kind {
+      AppKind::Custom { .. } if c.exit_after => {
+        // the child exited as soon as the teardown returned: nothing of a stream can be
+        // reported; the byte appenders of the case are what this teardown class is about
+        rep.class("e2e/appender=custom/unobserved_exit");
+        continue;
+      }
       AppKind::Custom { late, .. } => {
         let sr = res.streams.get(&name).cloned().unwrap_or_default();
         // "after which custom streams drain and then disconnect"
@@ -509,6 +584,18 @@ fn execute_in(c: &E2eCase, dir: &Path) -> Result<CaseReport, Failure> {
   }
 
   rep.class(format!("e2e/{mode}"));
+  rep.class(format!("e2e/teardown={}", match c.how {
+    How::Plain => "ordinary",
+    How::OtherThread => "other_thread",
+    How::Unwind => "unwind",
+    How::UnwindThread => "unwind_thread",
+  }));
+  if c.exit_after {
+    rep.class("e2e/exit_right_after_teardown");
+  }
+  if c.how != How::Plain && c.appenders.iter().any(|a| a.block && matches!(a.kind, AppKind::Custom { .. })) && !c.exit_after {
+    rep.class(format!("e2e/teardown_nonordinary/custom_block{}", if concurrent { "/concurrent" } else { "" }));
+  }
   rep.class(format!("e2e/threads={}", c.threads.len()));
   if threads.iter().flatten().any(|e| e.tracing) && threads.iter().flatten().any(|e| !e.tracing) {
     rep.class("e2e/both_apis");
